@@ -24,10 +24,22 @@ def rat(v):
     return [f.numerator, f.denominator]
 
 
+class Lin0(torch.nn.Module):
+    """x -> x w^T + b with the bias as a 0-dim (scalar) parameter, as e.g. the slope of the library's AdaptiveActivationFunction"""
+
+    def __init__(self):
+        super().__init__()
+        self.weight = torch.nn.Parameter(torch.zeros(1, 1, dtype=torch.float64))
+        self.bias = torch.nn.Parameter(torch.tensor(0.0, dtype=torch.float64))
+
+    def forward(self, x):
+        return x @ self.weight.T + self.bias
+
+
 class Affine(tp.models.Model):
-    def __init__(self, a0, b0, tied=False):
+    def __init__(self, a0, b0, tied=False, scalar=False):
         super().__init__(X, Uo)
-        self.lin = torch.nn.Linear(1, 1).double()
+        self.lin = Lin0() if scalar else torch.nn.Linear(1, 1).double()
         if tied:          # one submodule registered under two names (weight tying): state_dict lists both, parameters() one
             self.enc = torch.nn.Linear(1, 1).double()
             self.dec = self.enc
@@ -57,7 +69,7 @@ class Rec(torch.nn.Module):
 
 
 def build(cfg, log, setting=None):
-    model = Affine(cfg["a0"], cfg["b0"], tied=cfg.get("tied", False))
+    model = Affine(cfg["a0"], cfg["b0"], tied=cfg.get("tied", False), scalar=cfg.get("scalar", False))
     kap = tp.models.Parameter(float(cfg["k0"]), tp.spaces.R1("kappa"))
     kap.as_tensor.data = kap.as_tensor.data.double()
     objs = {"model": model, "kap": kap, "adapt": None}
@@ -231,7 +243,7 @@ def fit(cfg, steps, workdir, callbacks_extra=(), ckpt_path=None, log=None, setti
 
 def run_one(s):
     cfg = dict(s["cfg"], named=(pick(s["tid"], 2, 1) == 1), late_weights=(pick(s["tid"], 3, 2) == 0), eval_between=(pick(s["tid"], 4, 3) != 3),
-               new_lam=(pick(s["tid"], 2, 4) == 1), sanity=(pick(s["tid"], 3, 5) != 1))
+               new_lam=(pick(s["tid"], 2, 4) == 1), sanity=(pick(s["tid"], 3, 5) != 1), scalar=(pick(s["tid"], 2, 6) == 1))
     wd = tempfile.mkdtemp(prefix="c07-", dir=os.environ.get("VERIF_TMP", None))
     try:
         r = watched(lambda: fit(cfg, cfg["N"], wd), 90)
